@@ -48,10 +48,12 @@ Bind(nm, val) == [sp |-> <<>>, lo |-> nm, val |-> val]
 NSVal(ids) == [t |-> "ns", v |-> ids]     \* inside environments node-sets are id sequences
 Env1(x) == [ns |-> <<>>, vars |-> <<Bind(<<"x">>, x)>>, funcs |-> <<>>]
 Env2(x, y) == [ns |-> <<>>, vars |-> <<Bind(<<"x">>, x), Bind(<<"y">>, y)>>, funcs |-> <<>>]
-\* $y holds the nodes with the same ids in ANOTHER tree of the same document (a node-set selected from a second document of
-\* the same shape): its nodes have the same string-values, so every comparison has the same value; the harness binds the
-\* nodes of a twin tree, whose Pos() numbers coincide with those of the queried tree
-Env2F(x, y) == [ns |-> <<>>, vars |-> <<Bind(<<"x">>, x), [sp |-> <<>>, lo |-> <<"y">>, val |-> y, foreign |-> TRUE]>>, funcs |-> <<>>]
+\* $y holds nodes of ANOTHER document: the twin has the shape of VDoc (so a tree built from it numbers its nodes like the
+\* queried tree) but every text is followed by a "7"; the variable's value is the foreign node-set with the twin's string-values
+TwinDoc == [n \in 1..Len(VDoc) |-> IF VDoc[n].k = "text" THEN [VDoc[n] EXCEPT !.v = @ \o <<"7">>] ELSE VDoc[n]]
+ASSUME WellFormed(TwinDoc)
+Foreign(ids) == [t |-> "fns", ids |-> ids, strs |-> [i \in 1..Len(ids) |-> StringValue(TwinDoc, ids[i])]]
+Env2F(x, y) == [ns |-> <<>>, vars |-> <<Bind(<<"x">>, x), Bind(<<"y">>, Foreign(y.v))>>, funcs |-> <<>>, twin |-> TwinDoc]
 Env3(x, y, z) == [ns |-> <<>>, vars |-> <<Bind(<<"x">>, x), Bind(<<"y">>, y), Bind(<<"z">>, z)>>, funcs |-> <<>>]
 F1(nm, x) == Call(nm, <<x>>)
 F2(nm, x, y) == Call(nm, <<x, y>>)
